@@ -68,13 +68,13 @@ def run(rep):
                                                  'impl<->M_py (C01 projection)',
                                                  [{'impl': proj(corp.cases[ci]['ops'][oi], corp.impl[ci][oi]), 'model': proj(corp.cases[ci]['ops'][oi], corp.model[ci][oi])} for ci, oi in broken])
         # --- correspondence with the specification machines on their classes
-        sc, bc = matcher.machine_corpus(rep, m, corp.classes, 30 if quick else 200, 12 if quick else 20, rep.seed)
+        sc, bc, cc = matcher.machine_corpus(rep, m, corp.classes, 30 if quick else 200, 12 if quick else 20, rep.seed)
         if not quick:
-            ec, eb = matcher.exhaustive_machine_corpus(m, corp.classes, 4, rep.seed)
-            sc, bc = sc + ec, bc + eb
-            rep.coverage['exhaustive_machine_histories'] = len(ec) + len(eb)
+            ec, eb, ecc = matcher.exhaustive_machine_corpus(m, corp.classes, 4, rep.seed)
+            sc, bc, cc = sc + ec, bc + eb, cc + ecc
+            rep.coverage['exhaustive_machine_histories'] = len(ec) + len(eb) + len(ecc)
         from . import impl as I
-        for cases, runm, label in ((sc, m.run_seq, 'sequence machine'), (bc, m.run_bag, 'bag machine')):
+        for cases, runm, label in ((sc, m.run_seq, 'sequence machine'), (bc, m.run_bag, 'bag machine'), (cc, m.run_cho, 'choice machine')):
             io = I.run_cases(cases)
             mo = runm(cases)
             b2, n2 = judge(m, cases, io)
